@@ -60,6 +60,72 @@ PROPS["C05"] = {
         "level_note": 'Trusted: Lean kernel + {propext, Classical.choice, Quot.sound} (no bv_decide needed); u64/u128 wrapping arithmetic and & | ! >> modelled as Nat arithmetic mod 2^64 and Nat.land/lor/shiftRight; BigUint operators inside modpow/modinv taken as the mathematical operations (C01-C03, C07); Vec/ownership not modelled; correspondence strength bounded by the generators (quick: ~9.8k requests, probes MONTY_SUB/NOSUB/FINAL_SUB all hit).',
     }
 
+PROPS["C09"] = {
+    "lean": ["NB.Props.C09"],
+    "gens": ["c09"],
+    "profiles": ["release"],
+    "trusted": ["u8/u32/u64 primitive operations (<<, >>, |, &, !, wrapping_add, `as` truncation) = the Nat operations with explicit `% 2^width` used in NB.Model.Bytes / NB.Model.Iter",
+                "slice::chunks, slice::Iter<u64> (U64Digits), Iterator::nth default (advance_by + next), Iterator::collect = repeated next: modelled from their std semantics",
+                "Mathlib Nat.digits / Nat.ofDigits as the definition of positional digits"],
+    "assumptions": COMMON_ASSUME,
+    "level_text": "Theorems (NB.Props.C09, all sorry-free, none _partial): to_bytes_le_spec/to_bytes_be_spec (output = [0] for zero, else exactly Nat.digits 256 of the value), from_bytes_val + from_bytes_padding (ANY byte slice incl. empty/all-zero/zero-padded -> canonical ofNat(Nat.ofDigits 256 bs)), bytes_round_trip; to_signed_bytes_spec (output decodes to the value as two's complement AND no non-empty encoding is shorter, incl. the -2^(8k-1) exception; BE = reversed LE), from_signed_bytes_val + tcDecode_sign_extend (any 0x00../0xff.. sign-extension padding), signed_bytes_round_trip; u32_digits_spec / u64_digits_spec (= Nat.digits 2^32 / 2^64), new_from_slice_val + from_slice_padding (odd word counts, trailing zero words, any old contents), bigint_import_val / bigint_export_spec (Sign forms, from_biguint canonicalisation); iterator REFINEMENT: abstraction Iter.abs, invariant Iter.Inv, iter_inv_new, iter_abs_new, iter_next_refines, iter_next_back_refines, iter_observers_refine (len/size_hint/count/last), iter_nth_refines, lifted by induction to ALL call sequences: iter32_refines (run32 calls (new d) = specRun calls (Nat.digits 2^32 (val d))), iter64_refines, iter32_no_panic (len never underflows), d3_fixed. Tie: 3-way differential run (real crate / compiled Lean model / Nat-Int oracle) incl. the exhaustive set of all call prefixes of length <= 6 over {next,next_back,nth(1)} x {len,size_hint,last,count} on 8 values.",
+    "level_note": 'Trusted: Lean kernel + {propext, Classical.choice, Quot.sound}; fixed-width u8/u32/u64 operators modelled on Nat with explicit truncation; slice::chunks, slice::Iter (U64Digits), default Iterator::nth and collect modelled from std semantics; Vec capacity/size_hint-driven preallocation not modelled; only the 64-bit digit configuration; correspondence strength bounded by the generators (release profile: a usize underflow in len would wrap, the model marks it as a panic outcome and proves it unreachable).',
+}
+
+PROPS["C17"] = {
+    "lean": ["NB.Props.C17"],
+    "gens": ["c17"],
+    "profiles": ["release"],
+    "trusted": ["the serde data model: a Serializer is abstracted to the record of serialize_seq(len)/serialize_element/serialize_i8 calls, a Deserializer to a replayed token list with a size hint; serde's own impls for u32, i8 (range check), tuples and slices",
+                "Mathlib Nat.digits / Nat.ofDigits as the definition of positional digits"],
+    "assumptions": COMMON_ASSUME,
+    "level_text": 'Theorems (NB.Props.C17, all sorry-free, none _partial): ser_len (declared length = number of emitted elements, for every digit vector), ser_spec (elements = Nat.digits 2^32 of the value, LSB first, no trailing zero, empty for 0), ser_eq_u32_digits, de_val (ANY u32 list incl. odd length / trailing zeros, any size hint -> canonical ofNat(Nat.ofDigits 2^32 ws)), de_hint_irrelevant (hint only bounds capacity <= 2^17), de_padding, de_ser (round trip), sign_de_reject / sign_de_accept / sign_round_trip, ser_sign_spec, bigint_ser_spec, bigint_de_val (every (sign, sequence) pair -> ofInt(sign * value), canonicalised like from_biguint; invalid sign -> error), bigint_de_canon, bigint_de_ser. Tie: 3-way differential run through a hand-written recording Serializer and token-replay Deserializer (declared length, element list, tuple shape, all 256 sign bytes and out-of-i8 integers, absent/wrong/huge size hints).',
+    "level_note": "Trusted: Lean kernel + {propext, Classical.choice, Quot.sound}; the serde data model and serde's own impls for u32, i8 (range check), tuples and empty slices are abstracted (a Serializer = the record of calls, a Deserializer = a replayed token list with a size hint); ill-typed token streams (elements that are not u32) are out of scope; only the 64-bit digit configuration; correspondence strength bounded by the generators.",
+}
+
+PROPS["C10"] = {
+    "lean": ["NB.Props.C10"],
+    "gens": ["c10"],
+    "profiles": ["release"],
+    "special": lambda ctx: __import__("c10").special(ctx),
+    "trusted": ["value-level layering: the scalar leaf impls call BigUint/BigInt operators and the digit routines of C01-C03/C07 on digit lists built from the scalar; the model uses Nat/Int arithmetic for those calls",
+                "primitive integer semantics: `as` casts wrap modulo 2^N, wrapping_neg, unsigned_abs, `%` on primitives truncates (NB.castTo, NB.wrappingNeg, Int.tmod)",
+                "the in-process form matrix of harness/src/c10.rs (1350 forms, each compared with the ref/ref big-by-big operation on converted operands)"],
+    "assumptions": COMMON_ASSUME + ["usize/isize are 64 bits wide (UsizePromotion = u64, IsizePromotion = i64)",
+                                    "left shifts and powers whose result would not fit in memory are not exercised (only the documented capacity panics and zero/one bases)"],
+    "level": "proof",
+    "technique": "Lean 4 proofs about a value-level model of the scalar leaf impls and promotion layer + rustc-checked in-process form matrix (1350 forms) with 3-way differential run",
+    "level_text": "Leaf scalar semantics proved in Lean: theorems uScalarForm_spec / iScalarForm_spec (every BigUint/BigInt + - * / % form with a primitive scalar of any of the 12 types in any of the three positions, through the promotion cast and the leaf impl's sign/cmp/checked_uabs/digit-count case analysis, equals the canonical big-by-big operation on the losslessly converted scalar, as value or panic class, for EVERY value of the scalar type), uabs_spec (incl. MIN), remAssignScalar_spec (scalar %= BigUint, true also at iN::MIN and 2^(N-1)), shift specs (negative amount panics, BigInt >> rounds toward minus infinity), pow and Sum/Product folds. The val/ref permutations, compound-assignment forwarding and the capacity-driven operand choice do not exist in the immutable model: they are tied ONLY by the in-process form matrix (each of the 1350 rustc-checked forms run on structured operands and compared with the ref/ref operation, with the value-level model and with the Int oracle).",
+    "level_note": "Trusted: Lean kernel + {propext, Classical.choice, Quot.sound}; value-level layering over C01-C03/C07 operator theorems; primitive cast/neg/rem semantics; val/ref/assign permutations and buffer reuse covered by differential execution only, strength bounded by the generators.",
+}
+
+PROPS["C18"] = {
+        "lean": ["NB.Props.C18"],
+        "gens": ["c18"],
+        "profiles": ["release", "debug"],
+        "trusted": ["the RNG is a tape of u32 words: rand 0.8.8 `Rng::fill(&mut [u32])` stores the next k words of the `next_u32` stream in order (try_fill_bytes on the 4k bytes + to_le; fill_bytes_via_next / next_u64_via_u32 low word first; little-endian target; nothing for k = 0) and `gen::<bool>()` is `(next_u32() as i32) < 0` (read from the pinned rand-0.8.8 / rand_core-0.6.4 sources; exercised by every correspondence run through the harness's tape RngCore)",
+                    "a `[u64]` buffer viewed through `as *mut u32` on a little-endian target = pairs (lo, hi) of words (NB.Rand.packWords)",
+                    "BigUint/BigInt `+`/`-` of the range forms go through the C01 model and theorems; `impl Ord for BigInt` / `cmp_slice` debug assertions (operands canonical) are hypotheses, not modelled",
+                    "constants 32 / 32 / 64 of gen_bits / gen_biguint are re-extracted by tools/extract.py (NB.Gen.randShift, randDiv, randNative; obligation gen_rand_params_valid)"],
+        "assumptions": COMMON_ASSUME + ["bit sizes whose digit vector can be allocated (`to_usize().expect(\"capacity overflow\")` cannot fail on 64-bit targets; allocation failure not modelled)",
+                                         "an RNG whose fill_bytes is not the next_u32 stream in order (e.g. block RNGs with their own fill_bytes) is covered only through the statement 'gen_biguint is this function of the words fill() delivers'"],
+        "level_text": "Theorems over the model of src/bigrand.rs (64-bit digits) for EVERY tape of u32 words, every bit size, every canonical bound/range: gen_biguint_spec (value = first ceil(n/32) words as base-2^32 digits, top word >> (32 - n%32); exact consumption; never panics), gen_biguint_bound (< 2^n, canonical), gen_biguint_uniform_left/right/inj (words <-> (value, discarded bits) is a bijection with explicit inverse), below_spec + below_first (first candidate of width bits(bound) that is < bound; exhausted iff none), biguint_range_spec, bigint_range_spec (all three branches), uniform_u_spec, uniform_i_spec (new / new_inclusive + sample), sample_single_*_spec, *_mem (results in [lo,hi) / [lo,hi]), gen_bigint_spec/_first/_bound (sign word, zero redraw, (-2^n, 2^n)), random_bits_*_spec, *_panic_iff (panic exactly for zero bound / empty / inverted range), *_no_internal (loop fuel and internal assertions unreachable). Tied to the source by re-extracted constants and a 3-way differential run (real crate release+debug vs compiled model vs Nat/Int oracle, including exact word consumption) on structured tapes.",
+        "level_note": "Trusted: Lean kernel + {propext, Classical.choice, Quot.sound}; the word-tape encoding of rand 0.8.8's fill / gen::<bool> (read from source, exercised by the harness RngCore); little-endian u64-as-u32 view; C01 operator theorems for the range arithmetic; Vec/allocation/capacity not modelled; correspondence strength bounded by the generators.",
+    }
+
+PROPS["C06"] = {
+        "lean": ["NB.Props.C06"],
+        "gens": ["c06"],
+        "profiles": ["release", "debug"],
+        "special": lambda ctx: __import__("c06").special(ctx),
+        "trusted": ["core::fmt::Formatter::pad_integral modelled from std's source (NB.Radix.padIntegral); cross-checked in-process against std's own formatting of u128/i128",
+                    "core::str::from_utf8 modelled as the Unicode table 3-7 automaton (NB.Radix.utf8Valid)",
+                    "general-radix paths: BigUint-by-digit mul-add / div_rem_digit / div_rem / squaring at value level (Nat), justified by C02/C03; chunk and loop structure, u8/u64 truncations as in the source"],
+        "assumptions": COMMON_ASSUME,
+        "level_text": "Theorems to_radix_le_spec/_outcome, to_radix_be_spec, bigint_to_radix_le_spec, from_radix_le_spec/_outcome, from_radix_be_spec, bigint_from_radix_spec, from_to_radix, to_from_radix, to_str_spec, bigint_to_str_spec, to_str_alphabet, from_str_radix_u_spec, from_str_radix_i_spec, parse_iff_u, parse_iff_i, parse_bytes_u_spec, parse_bytes_i_spec, parse_to_str_u, parse_to_str_i, fmt_triple_spec, radix_base_spec, big_chunk_spec, horner_step_exact: for ALL canonical values, ALL radices and ALL byte strings / digit slices the model of every code path (exact- and inexact-width bit regrouping, chunked Horner input on the digit vector, chunked division output incl. the big-base super-chunk path for every threshold, sign/underscore/digit validation, UTF-8 gate) returns exactly Nat.digits / the canonical value of Nat.ofDigits / the denotation of the grammar, errors exactly for ill-formed input, panics exactly for a radix outside 2..=36 / 2..=256, and parsing emitted text returns the original value. Nothing is _partial. The model is tied to the source by the regenerated big-base threshold and a 3-way differential run (release and debug profiles) over all radices, chunk-length residues, 63/64/65-digit values, grammar-aware text mutants and a 40-entry format table that the harness also cross-checks against std's own u128/i128 formatting.",
+        "level_note": "Trusted: Lean kernel + {propext, Classical.choice, Quot.sound}; Formatter::pad_integral and str::from_utf8 are modelled from std (not proved); div_rem_digit, div_rem and BigUint squaring inside to_radix_digits_le are at value level (Nat) — their exactness is C02/C03; Vec/ownership not modelled; correspondence strength bounded by the generators (probe RADIX_BIGBASE hit is enforced).",
+    }
+
 NOT_CLAIMED = {}
 
 if __name__ == "__main__":
